@@ -1,5 +1,6 @@
 (* Witnesses: documents that the REGENERATED barectf 3 schemas accept although they violate a
-   documented constraint (the `_refuted` theorems of Props/C09.v).  Acceptance is decided by
+   documented constraint (the `_refuted` theorems of Props/C09.v), and former witnesses (defects
+   repaired in /repo) that the regenerated schemas must now reject.  Acceptance is decided by
    evaluating the validator (vm_compute); the harness (harness/props/c09_witness.py) checks that
    each witness is, term for term, the document it replays on the real front end. *)
 From Coq Require Import List String ZArith Bool Lia.
@@ -12,19 +13,19 @@ Definition K_config := "config/3/config#".
 
 Definition uint8 : json := JObj [("class", JStr "uint"); ("size", JInt 8)].
 
-(* S14: a static array without `length` *)
+(* former S14 witness (repaired): a static array without `length` *)
 Definition w_S14 : json :=
   JObj [("class", JStr "static-array"); ("element-field-type", uint8)].
-(* S4: a dynamic array with an unknown property and no element field type *)
+(* former S4 witness (repaired): a dynamic array with an unknown property and no element field type *)
 Definition w_S4 : json :=
   JObj [("class", JStr "dynamic-array"); ("zz", JInt 1)].
-(* S18: size 8.0 (a float) *)
+(* S19: size 8.0 (a float) *)
 Definition w_S18 : json :=
   JObj [("class", JStr "uint"); ("size", JFloat (FFin 8 1))].
 (* enumeration with null mappings *)
 Definition w_enum_null : json :=
   JObj [("class", JStr "uenum"); ("size", JInt 8); ("mappings", JNull)].
-(* structure member whose name is not an identifier *)
+(* former witness (repaired): structure member whose name is not an identifier *)
 Definition w_member : json :=
   JObj [("class", JStr "struct"); ("members", JArr [JObj [("a-b", JObj [("field-type", uint8)])]])].
 
@@ -44,7 +45,7 @@ Definition w_S3 : json :=
   cfg_of [] "d"
     [("$features", JObj [("packet", JObj [("total-size-field-type", JObj [("class", JStr "uint"); ("size", JInt 8)]);
                                           ("content-size-field-type", JObj [("class", JStr "uint"); ("size", JInt 16)])])])].
-(* unknown property in the trace object *)
+(* former witness (repaired): unknown property in the trace object *)
 Definition w_trace_prop : json := cfg_of [("zz", JInt 1)] "d" [].
 (* data stream type named "d\n" *)
 Definition nl : string := String (Ascii.ascii_of_nat 10) EmptyString.
@@ -55,13 +56,13 @@ Definition w_name_nl : json := cfg_of [] ("d" ++ nl) [].
 Lemma VK_eval key j : validate S3 200 (SRef key) j = Valid -> VK key j.
 Proof. intros H. exists 200. exact H. Qed.
 
-Lemma w_S14_valid : VK K_ft w_S14. Proof. apply VK_eval. vm_compute. reflexivity. Qed.
-Lemma w_S4_valid : VK K_ft w_S4. Proof. apply VK_eval. vm_compute. reflexivity. Qed.
+Lemma w_S14_rejected : validate S3 200 (SRef K_ft) w_S14 = Invalid. Proof. vm_compute. reflexivity. Qed.
+Lemma w_S4_rejected : validate S3 200 (SRef K_ft) w_S4 = Invalid. Proof. vm_compute. reflexivity. Qed.
 Lemma w_S18_valid : VK K_ft w_S18. Proof. apply VK_eval. vm_compute. reflexivity. Qed.
 Lemma w_enum_null_valid : VK K_ft w_enum_null. Proof. apply VK_eval. vm_compute. reflexivity. Qed.
-Lemma w_member_valid : VK K_ft w_member. Proof. apply VK_eval. vm_compute. reflexivity. Qed.
+Lemma w_member_rejected : validate S3 200 (SRef K_ft) w_member = Invalid. Proof. vm_compute. reflexivity. Qed.
 Lemma w_S3_valid : VK K_config w_S3. Proof. apply VK_eval. vm_compute. reflexivity. Qed.
-Lemma w_trace_prop_valid : VK K_config w_trace_prop. Proof. apply VK_eval. vm_compute. reflexivity. Qed.
+Lemma w_trace_prop_rejected : validate S3 200 (SRef K_config) w_trace_prop = Invalid. Proof. vm_compute. reflexivity. Qed.
 Lemma w_name_nl_valid : VK K_config w_name_nl. Proof. apply VK_eval. vm_compute. reflexivity. Qed.
 
 (* ---------------------------------------------------------------- violation of the documentation *)
@@ -94,16 +95,6 @@ Ltac by_class H :=
   destruct H as [[C H]|[[C H]|[[C H]|[[C H]|[[C H]|[[C H]|[[C H]|[[C H]|[C H]]]]]]]]];
   try wrong_class; clear C.
 
-Lemma w_S14_not_doc : ~ ft_doc true w_S14.
-Proof.
-  unfold w_S14. intros H. by_class H.
-  destruct H as (m & E & _ & _ & (x & L & _) & _). injection E as <-. discriminate L.
-Qed.
-Lemma w_S4_not_doc : ~ ft_doc true w_S4.
-Proof.
-  unfold w_S4. intros H. by_class H.
-  destruct H as (m & E & _ & S). injection E as <-. destruct (S eq_refl) as [(x & L & _) _]. discriminate L.
-Qed.
 Lemma w_S18_not_doc : ~ ft_doc true w_S18.
 Proof.
   unfold w_S18. intros H. by_class H.
@@ -116,14 +107,6 @@ Proof.
   destruct H as (m & E & _ & _ & _ & _ & (x & L & M) & _). injection E as <-. injection L as <-.
   destruct M as [[F _]|(mm & F & _)]; discriminate F.
 Qed.
-Lemma w_member_not_doc : ~ ft_doc true w_member.
-Proof.
-  unfold w_member. intros H. by_class H.
-  destruct H as (m & E & _ & _ & M & _). injection E as <-.
-  destruct (M _ eq_refl) as [F|(l & F & Ml)]; [discriminate F|]. injection F as <-.
-  destruct (Ml _ (or_introl eq_refl)) as (name & v & F & S & _). injection F as <- <-.
-  destruct (S eq_refl) as [I _]. discriminate I.
-Qed.
 
 Lemma w_S3_not_doc : ~ doc_total_ge_content w_S3.
 Proof.
@@ -131,12 +114,6 @@ Proof.
 Qed.
 
 (* walking down config_doc true to the trace object / the data stream types mapping *)
-Lemma w_trace_prop_not_doc : ~ config_doc true w_trace_prop.
-Proof.
-  intros (m & E & (t & Lt & (mt & Et & _ & _ & K)) & _). injection E as <-. injection Lt as <-.
-  injection Et as <-. simpl in K. specialize (K "zz" (JInt 1) (or_introl eq_refl)).
-  simpl in K. intuition discriminate.
-Qed.
 Lemma w_name_nl_not_doc : ~ config_doc true w_name_nl.
 Proof.
   intros (m & E & (t & Lt & (mt & Et & (tt & Ltt & TT) & _)) & _). injection E as <-. injection Lt as <-.
